@@ -108,6 +108,13 @@ CHECKS = {
             "canonical digest of the store; exactly-once, record == independent refit, load == stored, resume "
             "equals uninterrupted run (records and registry), identical re-run does no fits, overwrite recomputes",
             "4/C19", TRUST + "Crash = exception raised by the k-th fit/predict of a counting estimator (no partial file writes)."),
+    "C04": ("model_checking", "E2", E2 + " over the constructed/fitted state machine; constructor contract over a type-directed value menu",
+            "all 93 estimator classes (runnable ones with fit/apply, the others at construct level through import stubs) "
+            "and 17 composites up to nesting depth 2: every history of length <=4 over {set_params, clone, fit, apply(m)} "
+            "with is_fitted / NotFittedError / fit-returns-self / parameters-unchanged invariants in every state; every "
+            "constructor parameter x alternative value read back by identity; every nested name__param written and "
+            "read back from composite and component; every component replaced by name",
+            "4/C04", TRUST + "Base arguments come from the repository's ESTIMATOR_TEST_PARAMS fixture."),
 }
 
 PENDING_REASON = "check not built yet in this round; planned in DESIGN.md section 4 (engine listed there)"
